@@ -464,9 +464,9 @@ class GParserModel(FunctionSpec):
                 run.assume(pt == 1)
         run.oblige("rec.requires.cursor", z3.And(0 <= j, j <= NT))
         if prec >= 2:
-            run.assume(kind(j) != sv("CHOICE_OP"), "scanner-producible token sequence: no CHOICE_OP directly after an infix or prefix operator")
+            run.assume(kind(j) != sv("CHOICE_OP"), "scanner output (proved of the scanner: adj.* clauses): no CHOICE_OP directly after an infix or prefix operator")
         if prec == 4:
-            run.assume(kind(j) != sv("TAG"), "scanner-producible token sequence: no TAG directly after a prefix operator")
+            run.assume(kind(j) != sv("TAG"), "scanner output (proved of the scanner: adj.* clauses): no TAG directly after a prefix operator")
         err, end, tree = target(prec, j)
         if run.branch(err, "rec.err"):
             raise PyExc("PestGrammarSyntaxError", "recursive parse_expression")
@@ -571,9 +571,9 @@ class ParseExpression(GParserModel):
         me = self.mk_parser(run)
         i = run.pre["i"]
         if self.prec >= 2:
-            run.assume(kind(i) != sv("CHOICE_OP"), "scanner-producible token sequence: no CHOICE_OP directly after an infix or prefix operator")
+            run.assume(kind(i) != sv("CHOICE_OP"), "scanner output (proved of the scanner: adj.* clauses): no CHOICE_OP directly after an infix or prefix operator")
         if self.prec == 4:
-            run.assume(kind(i) != sv("TAG"), "scanner-producible token sequence: no TAG directly after a prefix operator")
+            run.assume(kind(i) != sv("TAG"), "scanner output (proved of the scanner: adj.* clauses): no TAG directly after a prefix operator")
         it = self.first_term(i)
         run.pre["it"] = it
         tg = OptStr.some_s(strip1(val(it)))
